@@ -1,6 +1,7 @@
 package engine
 
 import (
+	"regexp"
 	"encoding/json"
 	"fmt"
 	"go/types"
@@ -373,7 +374,7 @@ func Load(repoDir, verifDir string, patterns []string) (*Engine, error) {
 		return nil, err
 	}
 	e.Contracts, e.CFiles = cs, files
-	pre, err := LoadPrelude(filepath.Join(verifDir, "contracts", "prelude"))
+	pre, err := LoadPrelude(filepath.Join(verifDir, "contracts", "prelude"), grammarFacts(repoDir))
 	if err != nil {
 		return nil, err
 	}
@@ -516,4 +517,37 @@ var pkgAliases = map[string]string{
 	"bcrpb": "bundle_and_contained_resource_go_proto",
 	"cpb":   "codes_go_proto",
 	"ppb":   "patient_go_proto",
+}
+
+// grammarFacts turns the operator alternatives of /repo's grammar file into prelude
+// definitions on every run: for each labelled alternative of the form
+// `expression ('a' | 'b') expression #label` (or with the operator group first, or a type
+// specifier last) it defines g4op_<label>(s) == (s is one of the listed tokens). The visitor
+// contracts name these sets; editing the grammar edits the verification conditions.
+// Labels the visitor contracts use but the grammar no longer has are defined as `false`, which
+// makes the contract's precondition unsatisfiable and is reported by the vacuity check.
+func grammarFacts(repoDir string) string {
+	data, _ := os.ReadFile(filepath.Join(repoDir, "fhirpath", "internal", "grammar", "fhirpath.g4"))
+	re := regexp.MustCompile(`(?m)^\s*[|:]\s*(?:expression\s+)?\(((?:\s*'[^']*'\s*\|?)+)\)\s+(?:expression|typeSpecifier)\s+#(\w+)`)
+	tok := regexp.MustCompile(`'([^']*)'`)
+	found := map[string]bool{}
+	var b strings.Builder
+	b.WriteString("; generated from fhirpath/internal/grammar/fhirpath.g4 on this run\n")
+	for _, m := range re.FindAllStringSubmatch(string(data), -1) {
+		var alts []string
+		for _, t := range tok.FindAllStringSubmatch(m[1], -1) {
+			alts = append(alts, fmt.Sprintf("(= s %q)", t[1]))
+		}
+		if len(alts) == 0 || found[m[2]] {
+			continue
+		}
+		found[m[2]] = true
+		fmt.Fprintf(&b, "(define-fun g4op_%s ((s String)) Bool (or %s false))\n", m[2], strings.Join(alts, " "))
+	}
+	for _, l := range []string{"polarityExpression", "multiplicativeExpression", "additiveExpression", "typeExpression", "inequalityExpression", "equalityExpression", "orExpression"} {
+		if !found[l] {
+			fmt.Fprintf(&b, "(define-fun g4op_%s ((s String)) Bool false)\n", l)
+		}
+	}
+	return b.String()
 }
